@@ -145,7 +145,7 @@ func runBatch(prop string, seed uint64, from, to int, out string, maxS float64, 
 			}
 			bo.EventLog = append(bo.EventLog, fmt.Sprintf("%d %s %s %s %s", i, e.Name, shortHash(fmt.Sprint(src.Values())), LastRunDigest, d))
 		}
-		stuck := bo.Stats.Outcomes["deadlock"]+bo.Stats.Outcomes["stepcap"] > 0
+		stuck := bo.Stats.Outcomes["deadlock"]+bo.Stats.Outcomes["stepcap"]+bo.Stats.Outcomes["stalled"] > 0
 		if v != nil {
 			v.Seed, v.Index, v.Choices = seed, i, src.Values()
 			if !sigSeen[v.Sig] && len(bo.Violations) < 30 {
